@@ -128,7 +128,7 @@ pub fn dense_footprints<S: USet>(e: &mut Eng<S>, hists: usize) {
         ns.push(n);
     }
     for (hn, &n) in ns.iter().enumerate() {
-        let quiet = n > 3000;
+        let quiet = n > 1500;
         for order in 0..8 {
             e.begin(&format!("dense-n{}-o{}-{}", n, order, hn));
             let saved = e.mode;
@@ -223,7 +223,7 @@ pub fn dense_footprints<S: USet>(e: &mut Eng<S>, hists: usize) {
             e.bump(&format!("dense:order{}", order));
             e.quiet = false;
             e.mode = saved;
-            if n <= 3000 {
+            if n <= 1500 {
                 crate::profiles::audit(e, 0, false);
             }
             e.op_drop(0);
@@ -410,6 +410,23 @@ pub fn serde_roundtrip<S: USet>(e: &mut Eng<S>, i: usize, k: usize) {
         return;
     }
     let js = e.slots[i].as_ref().unwrap().to_json();
+    if S::TYPED && !cfg!(feature = "compactserde") {
+        if let Some(want) = S::json_of_items(&e.slots[i].as_ref().unwrap().items()) {
+            if want != js {
+                e.fail("C16", format!("the serialised form {} is not the plain member sequence {}", &js[..js.len().min(80)], &want[..want.len().min(80)]));
+            }
+            match S::from_json(&js) {
+                Ok(b) => {
+                    if &b != e.slots[i].as_ref().unwrap() {
+                        e.fail("C16", "typed round trip through serde yields a different set".into());
+                    }
+                }
+                Err(err) => e.fail("C16", format!("deserialising what was just serialised failed: {}", err)),
+            }
+            e.bump("serde:typed");
+            return;
+        }
+    }
     let nums: Vec<u64> = js.trim_matches(|c| c == '[' || c == ']').split(',').filter(|x| !x.is_empty()).map(|x| x.trim().parse().unwrap()).collect();
     let mut l = String::new();
     for x in &nums {
@@ -455,6 +472,24 @@ pub fn serde_roundtrip<S: USet>(e: &mut Eng<S>, i: usize, k: usize) {
 /// C16: deserialising an arbitrary sequence (any order, duplicates) yields the set of its distinct items
 #[cfg(all(feature = "serde", not(feature = "compactserde")))]
 pub fn serde_sequence<S: USet>(e: &mut Eng<S>, k: usize, v: &[u64]) {
+    if S::TYPED {
+        // a plain sequence in the element type's notation, any order, with duplicates
+        let v: Vec<u64> = v.iter().map(|&x| S::norm(x)).collect();
+        if let Some(js) = S::json_of_items(&v) {
+            match S::from_json(&js) {
+                Ok(b) => {
+                    let got: BTreeSet<u64> = b.items().into_iter().collect();
+                    let want: BTreeSet<u64> = v.iter().cloned().collect();
+                    if got != want || b.len() != want.len() {
+                        e.fail("C16", format!("deserialising the sequence {} gives {} members instead of its {} distinct items", &js[..js.len().min(60)], b.len(), want.len()));
+                    }
+                }
+                Err(err) => e.fail("C16", format!("deserialising a plain sequence failed: {}", err)),
+            }
+            e.bump("serde:typed-sequence");
+        }
+        return;
+    }
     let js = format!("[{}]", v.iter().map(|x| x.to_string()).collect::<Vec<_>>().join(","));
     e.slots[k] = None;
     let pushed = e.script_n(k, 6000);
